@@ -5,7 +5,7 @@ import os
 import typed_gen as tg
 import vlib
 
-GEN = []
+GEN = ["GenSrcDigest"]
 TRUSTED = [
     "Coq 8.16.1 kernel (coqc); vm_compute only in Examples and ..._refuted witnesses; no axioms",
     "coq/Types/Tc.v + TyGraph.v as the model of sylt-compiler/src/typechecker.rs (hand-written, follows the code "
